@@ -1,5 +1,6 @@
 (* C03 — facts about the REGENERATED published strict schema (coq/gen/Schemas.v), re-proved on every run:
-   its SerialHugr and Package definitions are the shapes of model/DocJson.v (up to norm / schema_equiv), so the
+   its SerialHugr and Package definitions are the shapes of model/DocJson.v (up to canon = strip . norm and
+   schema_equiv: key order, order of `required`, "additionalProperties": true, annotations), so the
    theorems of proofs/DocJsonP.v speak about the file that is on disk now. *)
 From Coq Require Import List Bool ZArith String Arith Lia.
 Import ListNotations.
